@@ -573,6 +573,30 @@ func (g *gen) writeOp(label string, longLived bool) Op {
 	return o
 }
 
+// rkPile draws many range-key writes over one span with few distinct suffixes:
+// a fragment then carries more keys than the small-input fast paths of the
+// coalescing code (e.g. insertion sort up to 12 elements) cover, and "newest
+// per suffix wins" must still hold. Nil when the profile has no range keys.
+func (g *gen) rkPile(label string) []Op {
+	if g.p.NoRangeKeys || g.p.OpW["rkset"] == 0 || rapid.IntRange(0, 19).Draw(g.t, label+"pile") != 0 {
+		return nil
+	}
+	a, b := g.span(label + "pilesp")
+	nsfx := rapid.IntRange(2, 3).Draw(g.t, label+"pilens")
+	var ops []Op
+	for i, n := 0, rapid.IntRange(13, 22).Draw(g.t, label+"pilen"); i < n; i++ {
+		o := Op{K: "rkset", A: a, B: b, S: 1 + rapid.IntRange(0, nsfx-1).Draw(g.t, fmt.Sprintf("%spiles%d", label, i))}
+		if g.p.OpW["rkunset"] > 0 && rapid.IntRange(0, 4).Draw(g.t, fmt.Sprintf("%spileu%d", label, i)) == 0 {
+			o.K = "rkunset"
+		} else {
+			g.nval++
+			o.V = fmt.Sprintf("r%d", g.nval)
+		}
+		ops = append(ops, o)
+	}
+	return ops
+}
+
 func (g *gen) commitOps(ops []Op) {
 	g.memDirty = true
 	for _, o := range ops {
@@ -991,6 +1015,7 @@ func (g *gen) emit(label, kind string) {
 			s.Ops = append(s.Ops, o)
 			g.sdNote(o) // so that a later sdel in the same batch respects the contract
 		}
+		s.Ops = append(s.Ops, g.rkPile(label)...)
 		if kind == "bigbatch" {
 			// one value large enough to push the batch over the large-batch threshold
 			g.nval++
@@ -1119,6 +1144,7 @@ func (g *gen) emit(label, kind string) {
 		for i := 0; i < n; i++ {
 			s.Ops = append(s.Ops, g.writeOp(fmt.Sprintf("%sb%d", label, i), true))
 		}
+		s.Ops = append(s.Ops, g.rkPile(label)...)
 		g.ibOps[s.ID] = append(g.ibOps[s.ID], s.Ops...)
 	case "ibread":
 		s.K = rapid.SampledFrom([]string{"get", "scan"}).Draw(g.t, label+"rk")
